@@ -109,11 +109,18 @@ type FDB struct {
 	// and tip keys; creating buckets and the sub-bucket marker do not count):
 	// 0 = a commit that is not a durable step of the header stores.
 	OnCommitW func(writes int)
+	// FailDelay is how long an injected transaction failure takes.
+	FailDelay time.Duration
 }
 
 func (d *FDB) Update(f func(tx walletdb.ReadWriteTx) error, reset func()) error {
 	if d.Fail {
 		d.Fail = false
+		if d.FailDelay > 0 {
+			// the failing transaction takes a moment: readers racing
+			// with the writer get a chance to run inside the window
+			time.Sleep(d.FailDelay)
+		}
 		return ErrInjected
 	}
 	if d.OnCommitW != nil {
